@@ -17,6 +17,7 @@ RULE = (
     "semantics on the dense references. Non-trivial: a step whose two operands are both non-Dense operators, or a scalar that is "
     "negative / zero / batched, or >= 2 steps with a specialised intermediate type. Distinct by (head classes, step kinds, scalar kind, result types)."
 )
+FUZZ = {"workers": 8, "runs": 3000}  # Atheris campaigns in the thorough tier (DESIGN section 5)
 BUDGET = {"quick": 1500, "thorough": 5000}
 ASSUMPTIONS = [
     "operations defined through root decompositions (elementwise op*op, adding a root-form operator, add_low_rank, cat_rows, prod) get PSD operands and the factorization tolerance",
